@@ -795,6 +795,8 @@ func (W *World) racTest(fn *ssa.Function, fc *FuncContract) (string, error) {
 			for i, p := range fn.Params {
 				if isString(p.Type()) {
 					ghostText = params[i].name + " = gtext__"
+				} else if it, ok := p.Type().Underlying().(*types.Interface); ok && it.NumMethods() == 0 {
+					ghostText = "if rng__.Intn(2) == 0 { " + params[i].name + " = gtext__ } else { " + params[i].name + " = []byte(gtext__) }"
 				} else if sl, ok := p.Type().Underlying().(*types.Slice); ok {
 					if b, isB := sl.Elem().Underlying().(*types.Basic); isB && b.Kind() == types.Uint8 {
 						ghostText = params[i].name + " = []byte(gtext__)"
